@@ -96,7 +96,7 @@ def main(argv):
     p = sub.add_parser('replay')
     p.add_argument('file')
     s = sub.add_parser('selftest')
-    s.add_argument('what', choices=['determinism', 'sensitivity'])
+    s.add_argument('what', choices=['determinism', 'sensitivity', 'seam'])
     s.add_argument('--props', default='C06,C07,C16,C19')
     s.add_argument('--n', type=int, default=200)
     s.add_argument('--mutants', default='')
